@@ -641,9 +641,109 @@ func driveLruConc(opt *Options) error {
 			s.runBigClear(690+r.Intn(40), r) // (one creation in six fails: about 590 values are resident)
 			flush(s, true)
 		}
+	case "failstorm":
+		// many callers on ONE key whose creation fails dozens of times in a row before it succeeds (summary line `storm`)
+		for i := 0; i < opt.N; i++ {
+			r := rand.New(rand.NewSource(opt.Seed*4099 + int64(i)))
+			capacity := 1 + r.Intn(3)
+			callers := 70 + r.Intn(60)
+			ev := lcFailStorm(callers, 40+r.Intn(callers-50), capacity) // (fewer failures than callers: somebody succeeds)
+			wmu.Lock()
+			for _, e := range []map[string]any{{"e": "reset", "cap": capacity}, ev} {
+				b, _ := json.Marshal(e)
+				w.Write(b)
+				w.WriteByte('\n')
+				stats["events"]++
+			}
+			stats["histories"]++
+			stats["reproduced"]++
+			wmu.Unlock()
+		}
 	default:
 		return fmt.Errorf("unknown mode %q", mode)
 	}
 	sb, _ := json.Marshal(stats)
 	return os.WriteFile(opt.Out+".stats", sb, 0o644)
+}
+
+
+// lcFailStorm: `callers` goroutines call GetOrCreate for one key at the same instant; the create function fails `fails`
+// times in a row (taking about a millisecond each time, so that everybody else queues up behind it) and then succeeds.
+func lcFailStorm(callers, fails, capacity int) map[string]any {
+	var mu sync.Mutex
+	inflight, maxInflight, creations, successes := 0, 0, 0, 0
+	deleted := map[int]int{}
+	create := func(pk string) (int, error) {
+		mu.Lock()
+		inflight++
+		if inflight > maxInflight {
+			maxInflight = inflight
+		}
+		creations++
+		n := creations
+		mu.Unlock()
+		time.Sleep(time.Millisecond)
+		mu.Lock()
+		defer mu.Unlock()
+		inflight--
+		if n <= fails {
+			return 0, errors.New("creation failed")
+		}
+		successes++
+		return 1000 + n, nil
+	}
+	onDelete := func(pk string, v int) { mu.Lock(); deleted[v]++; mu.Unlock() }
+	c, err := lru.NewECache[string, string, int](capacity, strings.ToLower, create, onDelete)
+	if err != nil {
+		return map[string]any{"e": "storm", "stuck": 1, "max_inflight": 0, "successes": 0, "distinct_values": 0, "deleted_once": 0, "deleted_other": 0}
+	}
+	var gate int32
+	vals := make([]int, callers)
+	errs := make([]bool, callers)
+	var wg sync.WaitGroup
+	for g := 0; g < callers; g++ {
+		wg.Add(1)
+		go func(g int) {
+			defer wg.Done()
+			for atomic.LoadInt32(&gate) == 0 {
+				runtime.Gosched()
+			}
+			v, err := c.GetOrCreate("Key")
+			vals[g], errs[g] = v, err != nil
+		}(g)
+	}
+	time.Sleep(5 * time.Millisecond)
+	atomic.StoreInt32(&gate, 1)
+	done := make(chan struct{})
+	go func() { wg.Wait(); close(done) }()
+	stuck := 0
+	select {
+	case <-done:
+	case <-time.After(20 * time.Second):
+		stuck = 1
+	}
+	distinct := map[int]bool{}
+	nerr := 0
+	if stuck == 0 {
+		for g := range vals {
+			if errs[g] {
+				nerr++
+			} else {
+				distinct[vals[g]] = true
+			}
+		}
+		c.Clear()
+	}
+	mu.Lock()
+	defer mu.Unlock()
+	once, other := 0, 0
+	for _, n := range deleted {
+		if n == 1 {
+			once++
+		} else {
+			other++
+		}
+	}
+	return map[string]any{"e": "storm", "callers": callers, "fails": fails, "cap": capacity, "creations": creations, "max_inflight": maxInflight,
+		"successes": successes, "errors_returned": nerr, "distinct_values": len(distinct), "deleted_once": once, "deleted_other": other, "stuck": stuck}
 }
